@@ -308,6 +308,10 @@ def run_system(ctx, case):
     ms = [int(m) for m in case['m']]
     types = list('ABC')[:len(ms)]
     L = int(max(64, min(1024, 2 ** int(np.ceil(np.log2(max(ms) * 2.5 + 8))))))
+    if case['seed'] % 11 == 0:
+        # a site larger than the whole domain (contact distance beyond r_max): every grid point is inside that core
+        L = int(max(4, min(ms) // 2 + 1))
+        ctx.hook('system.sigma_beyond_rmax')
     d = {t: float(m * dr) for t, m in zip(types, ms)}
     if len(ms) == 1 and rng.random() < 0.5:
         # make an unlike pair whose MEAN is m*dr
@@ -323,6 +327,8 @@ def run_system(ctx, case):
     for (i, j), (a, b) in G.pairs(types):
         sig = (d[a] + d[b]) / 2
         ps = mk(str(rng.choice(list(KINDS))), rng, sig)       # r_cut relative to the mean diameter
+        if ps['t'] == 'EXP' and case['seed'] % 3 == 0:
+            ps['alpha'] = float(sig / rng.uniform(720.0, 5000.0))     # a very short-ranged attraction on a large site: exp(sigma/alpha) is not representable
         ps['sigma'] = None
         if rng.random() < 0.3:
             ps['sigma'] = float(sig if rng.random() < 0.5 else round(rng.integers(2, 40) * dr, 10))     # explicit sigma
